@@ -48,9 +48,7 @@ Definition run_C01 (op : Z) (a : list (list Z)) : list (list Z) :=
   | 12 => let ab := combine (split_elems N y) (split_elems N (arg 4 a)) in
           ok (elem m (sum_of_products d m ab))
   | 13 => let v := split_elems N x in
-          let r := batch_inversion_and_mul (R_of m) (mul_assign d m)
-                     (fun t => match inverse m t with InvSome r => r | _ => [] end)
-                     is_zero v y in
+          let r := batch_inversion_and_mul (R_of m) (mul_assign d m) (inv_fn m) is_zero v y in
           ok [concat r; concat (map (into_bigint m) r)]
   | 14 => opt_elem m (from_int d m (nth 0 x 0) (negb (nth 1 x 0 =? 0)) (hd 0 y))
   | 15 => opt_elem m (from_le_bytes_mod_order d m x)
